@@ -16,6 +16,8 @@ units_for(ctx, "C01") / units_for(ctx, "C02") return the units that decide the r
 """
 import json
 import os
+import threading
+import time
 from concurrent.futures import ThreadPoolExecutor
 
 from lib import tlc
@@ -93,6 +95,54 @@ def judge_records(ctx, module, path, consts="", parts=PAR, timeout=900):
     return len(lines), bad, states
 
 
+
+class Group(Unit):
+    """Runs its member units concurrently (they mostly wait for TLC / harness sub-processes).  The shared
+    bookkeeping of ctx is serialised with a lock; each member's Inconclusive is reported with its name."""
+
+    def __init__(self, name, members):
+        self.name, self.members = name, members
+        self.times = {}
+
+    def summary(self):
+        return " | ".join("%s %.1fs %s" % (u.name, self.times.get(u.name, 0), u.summary()) for u in self.members)
+
+    def run(self, ctx):
+        lock = threading.RLock()
+
+        def locked(f):
+            def g(*a, **k):
+                with lock:
+                    return f(*a, **k)
+            return g
+        for attr in ("violation", "bump", "add_tlc", "sample"):
+            if not getattr(getattr(ctx, attr), "_w2_locked", False):
+                w = locked(getattr(ctx, attr))
+                w._w2_locked = True
+                setattr(ctx, attr, w)
+        only = os.environ.get("W2_ONLY")
+        failures = []
+
+        def one(u):
+            if only and only not in u.name:
+                return
+            t0 = time.time()
+            try:
+                u.run(ctx)
+            except Inconclusive as e:
+                failures.append("%s: %s" % (u.name, e))
+            finally:
+                self.times[u.name] = time.time() - t0
+
+        with ThreadPoolExecutor(max_workers=len(self.members)) as ex:
+            list(ex.map(one, self.members))
+        if failures:
+            raise Inconclusive("; ".join(failures))
+
+    def replay(self, ctx, data):
+        return replay_case(ctx, data)
+
+
 class TableUnit(Unit):
     """model -> code.  gen(ctx) -> {name: [rows]} written to out/<name>.ndjson; the harness command gets
     `-<name> path` for each and `-out report`; every mismatch signature of the report is one violation."""
@@ -155,7 +205,8 @@ def replay_case(ctx, data):
     p = os.path.join(ctx.out, "replay.case.json")
     with open(p, "w") as fh:
         json.dump(data["case"], fh)
-    r = run_h(ctx, [one, p])
+    extra = [json_types_file(ctx)] if one == "json-one" else []
+    r = run_h(ctx, [one, p] + extra)
     print(r.stdout, r.stderr)
     return r.returncode if r.returncode in (0, 1) else 2
 
@@ -164,9 +215,9 @@ class RecordsUnit(Unit):
     """code -> model.  The harness command writes NDJSON records of real calls; TLC judges each with
     <module>!Good; classify(rec, want) -> (sig, text, case) names the failing class."""
 
-    def __init__(self, name, command, module, classify, n=(1500, 20000), timeout=1200, consts=""):
+    def __init__(self, name, command, module, classify, n=(1500, 20000), timeout=1200, consts="", pre=None):
         self.name, self.command, self.module, self.classify, self.n, self.timeout = name, command, module, classify, n, timeout
-        self.consts = consts
+        self.consts, self.pre = consts, pre
         self.info = {}
 
     def summary(self):
@@ -175,7 +226,8 @@ class RecordsUnit(Unit):
     def run(self, ctx):
         path = os.path.join(ctx.out, self.command + ".ndjson")
         n = self.n[1] if ctx.thorough else self.n[0]
-        p = run_h(ctx, [self.command, "-seed", str(ctx.seed), "-n", str(n), "-out", path], timeout=self.timeout)
+        extra = self.pre(ctx) if self.pre else []
+        p = run_h(ctx, [self.command, "-seed", str(ctx.seed), "-n", str(n), "-out", path] + extra, timeout=self.timeout)
         if p.returncode != 0:
             raise Inconclusive("harness %s died: %s" % (self.command, (p.stderr or p.stdout)[-1500:]))
         total, bad, states = judge_records(ctx, self.module, path, consts=self.consts, timeout=self.timeout)
@@ -342,14 +394,99 @@ def deser_units():
     }
 
 
+# ------------------------------------------------------------------------------------------ WireJson
+
+JSON_PARTS = 14
+
+
+def json_gen_cfg(what, part=0, parts=1):
+    return "INIT GInit\nNEXT GNext\nCONSTANTS\n GenWhat = \"%s\"\n GenPart = %d\n GenParts = %d\n" % (what, part, parts)
+
+
+def json_types_file(ctx):
+    p = os.path.join(ctx.out, "json.types.ndjson")
+    if not os.path.exists(p):
+        rows = tlc_rows(ctx, [("json.types", "WireJsonGen", json_gen_cfg("types"))], ["TYPE"])
+        with open(p, "w") as fh:
+            fh.write("\n".join(rows["TYPE"]) + "\n")
+    return p
+
+
+def json_gen(ctx):
+    jobs = [("json.types", "WireJsonGen", json_gen_cfg("types")), ("json.rt", "WireJsonGen", json_gen_cfg("rt"))]
+    jobs += [("json.tot.%d" % i, "WireJsonGen", json_gen_cfg("tot", i, JSON_PARTS)) for i in range(JSON_PARTS)]
+    rows = tlc_rows(ctx, jobs, ["TYPE", "RT", "TOT"])
+    with open(os.path.join(ctx.out, "json.types.ndjson"), "w") as fh:
+        fh.write("\n".join(rows["TYPE"]) + "\n")
+    if len(rows["TYPE"]) < 11 or len(rows["RT"]) < 150 or len(rows["TOT"]) < 5000:
+        raise Inconclusive("JSON expectation table incomplete: %d types, %d RT rows, %d TOT rows" % (len(rows["TYPE"]), len(rows["RT"]), len(rows["TOT"])))
+    return {"rt": rows["TYPE"] + rows["RT"], "tot": rows["TYPE"] + rows["TOT"]}
+
+
+def json_classify(rec, want):
+    tid = rec["id"]
+    case = {"id": tid, "doc": rec["doc"], "validation": rec.get("validation", False)}
+    if rec["k"] == "rt":
+        case["v"] = rec["v"]
+        case["doc"] = want["doc"]
+        val = json.dumps(rec["v"])[:160]
+        if rec["enc"] == "panic":
+            return "JSONEncode:panics:" + tid, "JSONEncode of %s value %s panicked: %s" % (tid, val, rec.get("text")), case
+        if rec["enc"] != "ok":
+            return "JSONEncode:refuses-value:" + tid, "JSONEncode of %s value %s failed: %s" % (tid, val, rec.get("text")), case
+        if rec["doc"] != want["doc"]:
+            return "JSONEncode:document-differs-from-model:" + tid, "JSONEncode of %s value %s produced a document that differs from the model's" % (tid, val), case
+        for fn, key in (("MapDecode", "dec"), ("JSONDecode", "jdec")):
+            d = rec[key]
+            if d.get("panic"):
+                return "%s:round-trip-panics:%s" % (fn, tid), "%s of the encoding of %s value %s panicked: %s" % (fn, tid, val, d["panic"]), case
+            if not d["ok"]:
+                return "%s:round-trip-fails:%s" % (fn, tid), "%s of the encoding of %s value %s failed: %s" % (fn, tid, val, str(d.get("err"))[:200]), case
+            if d["v"] != rec["v"]:
+                return "%s:round-trip-wrong-value:%s" % (fn, tid), "%s of the encoding of %s value %s gave %s" % (fn, tid, val, json.dumps(d["v"])[:160]), case
+        return "WireJson:record-rejected:" + tid, "record rejected by WireJsonTrace!Good", case
+    w = want["w"]
+    cls = "%s<-%s" % tuple(w["at"]) if len(w.get("at") or []) == 2 else "valid-document"
+    for fn, key in (("MapDecode", "dec"), ("JSONDecode", "jdec")):
+        d = rec[key]
+        if d.get("panic"):
+            return "%s:wrong-type-panics:%s" % (fn, cls), "%s into %s of the well-formed document %s panicked: %s" % (fn, tid, rec.get("text", "")[:300], d["panic"]), case
+    for fn, key in (("MapDecode", "dec"), ("JSONDecode", "jdec")):
+        d = rec[key]
+        if d["ok"] and w["ok"] and d["v"] != w["v"]:
+            return "%s:valid-document-wrong-value:%s" % (fn, tid), "%s into %s of %s gave %s, the model reads %s" % (
+                fn, tid, rec.get("text", "")[:200], json.dumps(d["v"])[:160], json.dumps(w["v"])[:160]), case
+    return "WireJson:record-rejected:" + tid, "record rejected by WireJsonTrace!Good", case
+
+
+def json_units():
+    return {
+        "mc": McUnit(SUB, "WireJsonMC", name="WireJson:mc:roundtrip", thorough_cfgkind="thorough"),
+        "table": TableUnit("WireJson:table", "json-table", json_gen),
+        "records": RecordsUnit("WireJson:records", "json-records", "WireJsonTrace", json_classify, n=(1200, 20000),
+                               pre=lambda ctx: ["-types", json_types_file(ctx)]),
+    }
+
+
 # ------------------------------------------------------------------------------------------ composition
 
 def _all(ctx):
-    s, d = stream_units(), deser_units()
-    return {"C01": [s["mc_rt"], s["mc_neg"], s["table"], s["records"], d["mc_rt"], d["table"], d["records"]],
-            "C02": [s["mc_tot"], s["table"], s["records"], d["mc_tot"], d["mc_neg"], d["table"], d["records"]],
-            "all": [s["mc_rt"], s["mc_tot"], s["mc_neg"], s["table"], s["records"],
-                    d["mc_rt"], d["mc_tot"], d["mc_neg"], d["table"], d["records"]]}
+    s, d, j = stream_units(), deser_units(), json_units()
+    buf = SeqUnit(SUB, "StreamBuf", traces=(40, 60), walks=(100, 25))
+    c01 = [s["mc_rt"], s["mc_neg"], s["table"], s["records"], buf, d["mc_rt"], d["table"], d["records"],
+           j["mc"], j["table"], j["records"]]
+    c02 = [s["mc_tot"], s["table"], s["records"], d["mc_tot"], d["mc_neg"], d["table"], d["records"], j["table"], j["records"]]
+    every = [s["mc_rt"], s["mc_tot"], s["mc_neg"], s["table"], s["records"], buf,
+             d["mc_rt"], d["mc_tot"], d["mc_neg"], d["table"], d["records"], j["mc"], j["table"], j["records"]]
+    return {"C01": c01, "C02": c02, "all": every}
+
+
+def _grouped(prop, members):
+    """two waves: the model checks and the tables (heavy TLC work), then the record flows"""
+    first = [u for u in members if not isinstance(u, RecordsUnit)]
+    second = [u for u in members if isinstance(u, RecordsUnit)]
+    return [Group("W2:%s:models+tables(%s)" % (prop, ",".join(u.name for u in first)), first),
+            Group("W2:%s:records(%s)" % (prop, ",".join(u.name for u in second)), second)]
 
 
 ASSUMPTIONS = [
@@ -364,9 +501,11 @@ ASSUMPTIONS = [
 
 def units(ctx):
     ctx.assumptions += ASSUMPTIONS
-    return _all(ctx)["all"]
+    return _grouped("all", _all(ctx)["all"])
 
 
-def units_for(ctx, prop):
+def units_for(ctx, prop, grouped=True):
+    """the units that decide property prop ("C01" / "C02"); grouped=False returns them one by one"""
     ctx.assumptions += ASSUMPTIONS
-    return _all(ctx)[prop]
+    members = _all(ctx)[prop]
+    return _grouped(prop, members) if grouped else members
